@@ -170,6 +170,28 @@ def harness(cfg, ns):
 
             def seed(self, *a):
                 pass
+
+            PRIVATE = [0]
+
+            def default_rng(self, seed=None):
+                # a generator of its own: seeded from nowhere, it yields other numbers every time it is created
+                SeededRNG.PRIVATE[0] += 1
+                return SeededRNG(1000 + SeededRNG.PRIVATE[0]) if seed is None else SeededRNG(seed)
+
+            RandomState = default_rng
+        # a crowded continuum: the zones removed around the first pivots cover it before every annotator has one (fallback draw)
+        crowded = co.Continuum()
+        for i, a in enumerate(["zoe", "abe", "mia", "bob", "eve"]):
+            crowded.add(a, Segment(0.2 * i, 9.0 + 0.2 * i), "xy"[i % 2])
+        for pt in ("float_pivot", "int_pivot"):
+            runs = []
+            for rep in range(2):
+                s_ = sa.ShuffleContinuumSampler(pivot_type=pt)
+                ns.np.random = SeededRNG(11)
+                s_.init_sampling(crowded, None)
+                smp = [s_.sample_from_continuum for _ in range(3)]
+                runs.append([[(a, float(u.segment.start), float(u.segment.end), u.annotation) for a, u in x] for x in smp])
+            obls.append(Obl(f"same-seed-same-samples-on-a-crowded-continuum[{pt}]", runs[0] == runs[1], rz))
         for cls in (sa.ShuffleContinuumSampler, sa.StatisticalContinuumSampler):
             seen = []
             for order in _it.permutations(["zoe", "abe", "mia"]):
@@ -245,6 +267,12 @@ for sampler, kw in [(smp, k) for smp in (None, pa.ShuffleContinuumSampler()) for
         r = c.compute_gamma(pa.CombinedCategoricalDissimilarity(alpha=2), n_samples=4, sampler=sampler, **kw)
         out.append([round(float(r.observed_disorder), 6), [round(float(a.disorder), 6) for a in r.chance_alignments], round(float(r.gamma), 6),
                     round(float(r.gamma_cat), 6), [round(float(r.gamma_k(k)), 6) for k in c.categories]])
+crowded = pa.Continuum()
+for i, a in enumerate(["zoe", "abe", "mia", "bob", "eve"]):
+    crowded.add(a, Segment(0.2 * i, 9.0 + 0.2 * i), ["verb", "noun"][i % 2])
+np.random.seed(78)
+r = crowded.compute_gamma(pa.CombinedCategoricalDissimilarity(), n_samples=4, sampler=pa.ShuffleContinuumSampler())
+out.append([round(float(r.observed_disorder), 6), [round(float(a.disorder), 6) for a in r.chance_alignments], round(float(r.gamma), 6)])
 print("RESULT" + json.dumps(out))
 """
 
@@ -289,6 +317,19 @@ def replay(case):
             c.add(a, Segment(10 * i, 10 * i + 4), "xy"[i % 2])
         bad = []
         import numpy as np
+        crowded = pa.Continuum()
+        for i, a in enumerate(["zoe", "abe", "mia", "bob", "eve"]):
+            crowded.add(a, Segment(0.2 * i, 9.0 + 0.2 * i), "xy"[i % 2])
+        for pt in ("float_pivot", "int_pivot"):
+            runs = []
+            for rep in range(2):
+                s_ = pa.ShuffleContinuumSampler(pivot_type=pt)
+                np.random.seed(11)
+                s_.init_sampling(crowded, None)
+                smp = [s_.sample_from_continuum for _ in range(3)]
+                runs.append([[(a, float(u.segment.start), float(u.segment.end), u.annotation) for a, u in x] for x in smp])
+            if runs[0] != runs[1]:
+                bad.append(f"ShuffleContinuumSampler({pt}) on a crowded continuum: the same seed gives different samples")
         for cls in (pa.ShuffleContinuumSampler, pa.StatisticalContinuumSampler):
             seen = []
             for order in _it.permutations(["zoe", "abe", "mia"]):
